@@ -141,7 +141,7 @@ class TLCResult:
 _RE_STATES = re.compile(r"(\d+) states generated, (\d+) distinct states found")
 _RE_DEPTH = re.compile(r"The depth of the complete state graph search is (\d+)")
 _RE_INV = re.compile(r"Error: Invariant (\S+) is violated")
-_RE_PROP = re.compile(r"Error: (?:Temporal properties were violated|Action property (\S+) is violated)")
+_RE_PROP = re.compile(r"Error: (?:Temporal properties were violated|Temporal property (\S+) was violated|Action property (\S+) is violated)")
 _RE_COV = re.compile(r"^<(\w+) line \d+, col \d+ to line \d+, col \d+ of module (\w+)>: (\d+):(\d+)", re.M)
 
 
@@ -240,7 +240,7 @@ def run_tlc(module, cfg, workers=None, timeout=600, simulate=None, depth=None, e
             res.violated = m.group(1)
         m = _RE_PROP.search(res.out)
         if m and not res.violated:
-            res.violated = m.group(1) or "temporal"
+            res.violated = m.group(1) or m.group(2) or "temporal"
         if "Deadlock reached" in res.out and not res.violated:
             res.violated = "Deadlock"
         if "Postcondition" in res.out and "violated" in res.out or "POSTCONDITION" in res.out and "false" in res.out.lower():
